@@ -36,6 +36,7 @@ var introTemplates = []struct{ re, arm string }{
 	{`^list := newTypeList\(\) ; list\.add\(R\.Members\.\.\.\) ; result = list$`, ".members"},
 	{`^result = R\.Type$`, ".type"},
 	{`^result = R\.Default$`, ".default"},
+	{`^switch R\.Default\.\(type\) \{ case nil, string: result = R\.Default default: result = valueString\(R\.Default\) \}$`, ".defaultMixed"},
 	{`^result = &R\.args$`, ".args"},
 	{`^result = false ; for _, du := range R\.(Dirs|Directives) \{ if du\.Directive\.Name\(\) == deprecatedStr \{ result = true \} \}$`, ".isDeprecated"},
 	{`^for _, du := range R\.(Dirs|Directives) \{ if du\.Directive\.Name\(\) == deprecatedStr \{ if av := du\.Args\[(reasonStr|"reason")\]; av != nil \{ result = av\.Value \} \} \}$`, ".deprecationReason"},
@@ -180,12 +181,19 @@ func genIntro(c *ctx) string {
 			}
 			return true
 		})
-		src := c.src(rf.Body)
-		if !strings.Contains(src, "if t.Name() == queryType {") {
+		src := regexp.MustCompile(`\s+`).ReplaceAllString(regexp.MustCompile(`(?m)//.*$`).ReplaceAllString(c.src(rf.Body), ""), " ")
+		switch {
+		case strings.Count(src, "if t.Name() == queryType {") == 2 && qt != "" && !strings.HasPrefix(qt, "unknown"):
+			qt = "some " + qt
+		case strings.Count(src, "if queryType != nil && t == queryType {") == 2 &&
+			strings.Contains(src, `var queryType Type if root.schema != nil { if fd := root.schema.fields.get(string(OpQuery)); fd != nil { queryType = fd.Type } }`):
+			// the container is compared with the schema's query root type itself
+			qt = "none"
+		default:
 			qt = unknown("intro_queryType_test", c.pos(rf))
 		}
 	}
-	fmt.Fprintf(&b, "/-- `__type` / `__schema` are served when the container type's *name* equals this literal -/\ndef metaContainerLiteral : String := %s\n", qt)
+	fmt.Fprintf(&b, "/-- `__type` / `__schema`: `some l` when they are served only if the container type's *name* equals the literal `l`\n(D36); `none` when the container is compared with the schema's query root type -/\ndef metaContainerLiteral : Option String := %s\n", qt)
 	// Locate: Go type of a schema node -> location / kind string
 	goT := map[string]string{"*Object": "object", "*Interface": "iface", "*Union": "union", "*Enum": "enum", "*Input": "input", "*Scalar": "scalar"}
 	var locRows, builtin []string
